@@ -132,6 +132,17 @@ impl Bitmap {
         }
         Bitmap { lo, bus, settle }
     }
+    /// bitmap from a MODEL of the calendar (independent of the real predicates)
+    pub fn from_fn(lo: i64, hi: i64, f: impl Fn(i64) -> (bool, bool)) -> Bitmap {
+        let mut bus = Vec::with_capacity((hi - lo + 1) as usize);
+        let mut settle = Vec::with_capacity((hi - lo + 1) as usize);
+        for z in lo..=hi {
+            let (b, s) = f(z);
+            bus.push(b);
+            settle.push(s);
+        }
+        Bitmap { lo, bus, settle }
+    }
     pub fn hi(&self) -> i64 {
         self.lo + self.bus.len() as i64 - 1
     }
